@@ -430,7 +430,9 @@ class JSONRPCv2(JSONRPC):
                 'request object must be a dictionary')
         if 'id' in message:
             request_id = message['id']
-            if not isinstance(request_id, (Number, str, type(None))):
+            # bool is a subclass of int but true/false are not JSON numbers
+            if (isinstance(request_id, bool) or
+                    not isinstance(request_id, (Number, str, type(None)))):
                 raise ProtocolError.invalid_request(
                     f'invalid "id": {request_id}')
             return request_id
@@ -602,7 +604,8 @@ class JSONRPCConnection:
         return self._protocol.response_message(error, request_id)
 
     def _receive_response(self, result, request_id):
-        if request_id not in self._requests:
+        # True == 1 and False == 0, but a bool is never an ID we issued
+        if isinstance(request_id, bool) or request_id not in self._requests:
             if request_id is None and isinstance(result, RPCError):
                 message = f'diagnostic error received: {result}'
             else:
